@@ -11,6 +11,7 @@ import (
 	"sort"
 	"strings"
 	"sync"
+	"sync/atomic"
 	"time"
 )
 
@@ -345,7 +346,16 @@ func discharge(obls []*obligation, dir string, timeoutS int, workers int) {
 				}
 				r := runSolvers(f, 1, "z3-5.1.0/noauto")
 				if r.status != "unsat" && r.status != "sat" && !o.expectSat {
-					r = runSolvers(f, timeoutS, "")
+					// once many obligations have failed the run is lost anyway: do not spend the full timeout on each of
+					// the remaining ones (a broken function can have thousands)
+					t := timeoutS
+					if atomic.LoadInt32(&failedSoFar) >= 20 && t > 3 {
+						t = 3
+					}
+					r = runSolvers(f, t, "")
+				}
+				if r.status != "unsat" && !o.expectSat {
+					atomic.AddInt32(&failedSoFar, 1)
 				}
 				o.status = r.status
 				o.solver = r.solver
@@ -376,6 +386,8 @@ func discharge(obls []*obligation, dir string, timeoutS int, workers int) {
 	close(ch)
 	wg.Wait()
 }
+
+var failedSoFar int32
 
 // Abstract bit functions used in int mode for single-bit operations with a symbolic
 // bit index. bitof(v,n) is bit n of the non-negative integer v, setbit(v,n,b) is v with
